@@ -12,6 +12,7 @@ package main
 //   endr                   end the open read transaction
 //   probe                  try to begin a second write transaction  -> acquired | blocked
 //   reopen                 Close + OpenDB (only with no transaction open)
+//   raw                    every raw key=value pair of the underlying goleveldb (model: its committed store)
 //   create S P             CreateTopLevelBucket / NewBucket of the last name of path P
 //   delb   S P             DeleteTopLevelBucket / DeleteBucket
 //   has    S P             navigation TopLevelBucket(n1).Bucket(n2)… != nil
@@ -39,8 +40,9 @@ import (
 	"time"
 
 	"github.com/massnetorg/mass-core/logging"
+	"github.com/syndtr/goleveldb/leveldb"
 	"massnet.org/mass-wallet/masswallet/db"
-	_ "massnet.org/mass-wallet/masswallet/db/ldb"
+	"massnet.org/mass-wallet/masswallet/db/ldb"
 )
 
 func init() {
@@ -70,6 +72,7 @@ type kvExec struct {
 	w      *kvWrite
 	r      *kvRead
 	probes []chan struct{}
+	resets int
 }
 
 var kvLogOnce sync.Once
@@ -158,7 +161,51 @@ func (x *kvExec) shutdown() {
 	}
 }
 
-func (x *kvExec) Reset() { x.shutdown() }
+// Reset starts a new history on an empty database.  Opening a database costs ~20 ms (the driver
+// asks goleveldb for a 128 MiB write buffer), so most resets empty the store through the raw
+// goleveldb handle instead (hook ldb.VerifRawLevelDB); every 64th reset, and any reset that
+// cannot wipe, closes the database, removes its directory and creates a fresh one.
+func (x *kvExec) Reset() {
+	x.resets++
+	if x.d == nil || x.resets%64 == 0 {
+		x.shutdown()
+		return
+	}
+	if x.w != nil {
+		x.endWrite(false)
+	}
+	if x.r != nil {
+		x.endRead()
+	}
+	raw := ldb.VerifRawLevelDB(x.d)
+	if raw == nil {
+		x.shutdown()
+		return
+	}
+	b := new(leveldb.Batch)
+	it := raw.NewIterator(nil, nil)
+	for it.Next() {
+		b.Delete(it.Key())
+	}
+	it.Release()
+	if it.Error() != nil || raw.Write(b, nil) != nil {
+		x.shutdown()
+	}
+}
+
+func (x *kvExec) rawDump() string {
+	raw := ldb.VerifRawLevelDB(x.d)
+	if raw == nil {
+		return "err:other"
+	}
+	var items []string
+	it := raw.NewIterator(nil, nil)
+	defer it.Release()
+	for it.Next() {
+		items = append(items, hexTok(it.Key())+"="+hexTok(it.Value()))
+	}
+	return strings.TrimSpace("n:" + strconv.Itoa(len(items)) + " " + strings.Join(items, " "))
+}
 func (x *kvExec) Close() { x.shutdown() }
 
 func kvErr(err error) string {
@@ -411,6 +458,11 @@ func (x *kvExec) Exec(a []string) string {
 		case <-time.After(15 * time.Millisecond):
 			return "blocked"
 		}
+	case "raw":
+		if len(a) != 1 {
+			return "bad-op"
+		}
+		return x.rawDump()
 	case "reopen":
 		if len(a) != 1 || x.w != nil || x.r != nil {
 			return "bad-op"
